@@ -28,37 +28,56 @@ Proof.
   f_equal. apply tree_eqb_eq; exact H.
 Qed.
 
-Lemma all_items_complete : forall i : item, In i all_items.
+Lemma agree_eq : forall ts, agree ts = true -> tables_tree ts = parse_tokens ts.
+Proof. intros ts H. unfold agree in H. apply otree_eqb_eq. exact H. Qed.
+
+Lemma all_items_complete : forall i : item, List.In i all_items.
 Proof.
   destruct i as [o neg|neg| | | |]; try destruct o; try destruct neg; vm_compute; tauto.
 Qed.
 
-Lemma pairs_agree_true : pairs_agree = true.
-Proof. vm_compute. reflexivity. Qed.
+Lemma forallb_items2 : forall P : bool -> item -> item -> bool,
+  forallb (fun n => forallb (fun i => forallb (fun j => P n i j) all_items) all_items) [false; true] = true ->
+  forall n i j, P n i j = true.
+Proof.
+  intros P H n i j.
+  rewrite forallb_forall in H. assert (Hn : List.In n [false; true]) by (destruct n; simpl; tauto).
+  specialize (H n Hn). rewrite forallb_forall in H. specialize (H i (all_items_complete i)).
+  rewrite forallb_forall in H. exact (H j (all_items_complete j)).
+Qed.
 
-Lemma triples_agree_true : triples_agree = true.
-Proof. vm_compute. reflexivity. Qed.
+Lemma forallb_items3 : forall P : bool -> item -> item -> item -> bool,
+  forallb (fun n => forallb (fun i => forallb (fun j => forallb (fun k => P n i j k) all_items) all_items) all_items) [false; true] = true ->
+  forall n i j k, P n i j k = true.
+Proof.
+  intros P H n i j k.
+  rewrite forallb_forall in H. assert (Hn : List.In n [false; true]) by (destruct n; simpl; tauto).
+  specialize (H n Hn). rewrite forallb_forall in H. specialize (H i (all_items_complete i)).
+  rewrite forallb_forall in H. specialize (H j (all_items_complete j)).
+  rewrite forallb_forall in H. exact (H k (all_items_complete k)).
+Qed.
+
+Lemma pairs_agree_true :
+  forallb (fun n => forallb (fun i => forallb (fun j => agree (chain n [i; j])) all_items) all_items) [false; true] = true.
+Proof. vm_cast_no_check (eq_refl true). Qed.
+
+Lemma triples_agree_true :
+  forallb (fun n => forallb (fun i => forallb (fun j => forallb (fun k => agree (chain n [i; j; k])) all_items) all_items) all_items) [false; true] = true.
+Proof. vm_cast_no_check (eq_refl true). Qed.
 
 (* bound: chains  [-] a  op1 [-] b  op2 [-] c  over the 34 operator items (14 binary operators and `between .. and`,
    each followed by a plain or negated operand; instance of, path, filter, invocation), 2 * 34^2 token lists *)
 Lemma tables_pairs : forall (n : bool) (i j : item),
   tables_tree (chain n [i; j]) = parse_tokens (chain n [i; j]).
 Proof.
-  intros n i j. apply otree_eqb_eq.
-  pose proof pairs_agree_true as H. unfold pairs_agree in H.
-  rewrite forallb_forall in H. assert (Hn : In n [false; true]) by (destruct n; simpl; tauto).
-  specialize (H n Hn). rewrite forallb_forall in H. specialize (H i (all_items_complete i)).
-  rewrite forallb_forall in H. exact (H j (all_items_complete j)).
+  intros n i j. apply agree_eq.
+  exact (forallb_items2 (fun n i j => agree (chain n [i; j])) pairs_agree_true n i j).
 Qed.
 
 (* bound: 2 * 34^3 token lists *)
 Lemma tables_triples : forall (n : bool) (i j k : item),
   tables_tree (chain n [i; j; k]) = parse_tokens (chain n [i; j; k]).
 Proof.
-  intros n i j k. apply otree_eqb_eq.
-  pose proof triples_agree_true as H. unfold triples_agree in H.
-  rewrite forallb_forall in H. assert (Hn : In n [false; true]) by (destruct n; simpl; tauto).
-  specialize (H n Hn). rewrite forallb_forall in H. specialize (H i (all_items_complete i)).
-  rewrite forallb_forall in H. specialize (H j (all_items_complete j)).
-  rewrite forallb_forall in H. exact (H k (all_items_complete k)).
+  intros n i j k. apply agree_eq.
+  exact (forallb_items3 (fun n i j k => agree (chain n [i; j; k])) triples_agree_true n i j k).
 Qed.
